@@ -516,6 +516,14 @@ def main(tier, seed):
     step = 40
     for i in range(0, len(two), step):
         jobs.append((two[i:i + step], (22,) if tier == 'quick' else (22, 2222), c2))
+    # non-default port: a [host]:port line together with a plain line (the port form wins whenever it names a
+    # trusted key or CA; only then does the plain name not count)
+    portp = ['[h.example]:2222', '[*.example]:2222', hashed('[h.example]:2222')]
+    pfiles = [((m1, p1, k1), (m2, p2, k2)) for m1 in MARKERS for p1 in portp for k1 in KEYS
+              for m2 in MARKERS for p2 in (HOST, '*') for k2 in KEYS]
+    pfiles += [(b, a) for a, b in pfiles[::5]]
+    for i in range(0, len(pfiles), 40):
+        jobs.append((pfiles[i:i + 40], (2222,), c2))
     acc = core.pmap(worker, core.rotate(jobs, seed))
     full = ('cert', 'k1', 'ca1', 'host', 0, 2 ** 64 - 1, (HOST,), False)
     lying = [[('blob-of-other-key', (('', HOST, 'k1'),), ('key', 'k1')),
